@@ -135,7 +135,7 @@ pub fn scenarios(prop: &str, thorough: bool) -> Vec<Scenario> {
         }
         "C06" | "C19" => {
             v.extend(held_family(thorough));
-            v.extend(scenarios("C07", thorough).into_iter().filter(|s| s.name.starts_with("Big/")));
+            v.extend(scenarios("C07", thorough).into_iter().filter(|s| s.name.starts_with("Big/") || s.name.starts_with("MC/")));
             // small scripts, explored with a higher preemption bound
             for pool in [1usize, 2] {
                 for (xi, x) in [None, Some(UOp::Reparse(0, "ab")), Some(UOp::Reparse(0, "b")), Some(UOp::Restart(false))].iter().enumerate() {
@@ -340,6 +340,38 @@ pub fn scenarios(prop: &str, thorough: bool) -> Vec<Scenario> {
                                         flag_points: false,
                                     });
                                 }
+                            }
+                        }
+                    }
+                }
+            }
+            // (MC) two columns: every pair of column texts, then one more edit in either column
+            // (an append or not), with a tick in between; items whose columns differ
+            {
+                let texts: &[&str] = &["", "a", "ab", "b"];
+                for t0 in texts {
+                    for t1 in texts {
+                        for col in [0usize, 1] {
+                            for t2 in texts {
+                                let before = if col == 0 { t0 } else { t1 };
+                                if t2 == before {
+                                    continue;
+                                }
+                                if !thorough && !(t2.starts_with(*before) || before.is_empty() || t2.is_empty()) && col == 0 {
+                                    continue;
+                                }
+                                v.push(Scenario {
+                                    name: format!("MC/{t0:?},{t1:?}>col{col}={t2:?}"),
+                                    pool_threads: 1,
+                                    columns: 2,
+                                    preload: vec![it(100, "a"), it(101, "ab"), it(102, "ba"), it(103, "b"), it(104, "xab"), it(105, "bxa"), it(106, "c")],
+                                    u: vec![UOp::Reparse(0, t0), UOp::Reparse(1, t1), UOp::Tick, UOp::Reparse(col, t2), UOp::Drain(6)],
+                                    injectors: vec![],
+                                    slots: 0,
+                                    bound: 0,
+                                    fine: true,
+                                    flag_points: false,
+                                });
                             }
                         }
                     }
